@@ -64,6 +64,16 @@ def invoke(ep, mix, model, x, t, tp, pp, steps=2):
                          permeances=[(p1, p2)], permeate_temperature=tp, permeate_pressure=pp)
     if ep == "partial_pressures":
         return core.call(U.pyvaporation.get_partial_pressures, t, mix, comp, model)
+    # the activity model selected by OMITTING the argument is the documented default (NRTL)
+    if ep == "partial_pressures_default":
+        return core.call(U.pyvaporation.get_partial_pressures, t, mix, comp)
+    if ep == "activity_default":
+        return core.call(U.pyvaporation.mixtures.mixture.calculate_activity_coefficients, t, mix, comp)
+    if ep == "curve_from_fluxes_default":
+        return core.call(U.DiffusionCurve, mixture=mix, membrane_name="M", feed_temperature=t, feed_compositions=[comp],
+                         partial_fluxes=[(0.012, 0.0007)], permeate_temperature=tp, permeate_pressure=pp)
+    if ep == "curve_from_permeances_default":
+        return core.call(U.DiffusionCurve, mixture=mix, membrane_name="M", feed_temperature=t, feed_compositions=[comp], permeances=[(p1, p2)])
     raise ValueError(ep)
 
 
@@ -106,6 +116,8 @@ def broken_mixture(kind):
 
 def judge_model(case):
     mix, model = broken_mixture(case["kind"])
+    if case["ep"].endswith("_default") and case["kind"] != "nrtl_missing":
+        return core.result("not-applicable", nontrivial=False)  # the default model is NRTL: only its absence is an invalid specification
     tp = case["T"] - 25.0 if case["mode"] == "T" else None
     pp = 0.4 if case["mode"] == "p" else None
     st, r = invoke(case["ep"], mix, model, case["x"], case["T"], tp, pp)
@@ -117,7 +129,7 @@ def judge_model(case):
     other = "UNIQUAC" if model == "NRTL" else "NRTL"
     # (curve-building entry points are exempt: DiffusionCurve has no model parameter and always evaluates NRTL,
     #  which the statement does not speak about)
-    if not v and case["kind"] in ("nrtl_missing", "uniquac_missing") and case["ep"] not in ("ideal_curve", "nonideal_curve") \
+    if not v and case["kind"] in ("nrtl_missing", "uniquac_missing") and case["ep"] not in ("ideal_curve", "nonideal_curve") and not case["ep"].endswith("_default") \
             and case["mode"] == "vac" and 0.0 < case["x"] < 1.0:  # in vacuum, away from pure feeds (separation factor divides by the
         # feed fraction), nothing but the model's parameters can make the call raise
         st2, r2 = invoke(case["ep"], mix, other, case["x"], case["T"], tp, pp)
@@ -196,10 +208,10 @@ def main(tier, seed):
                 rep.add_violation(dict(core.viol("C19/valid_specification_rejected/" + ep,
                                                  "%s accepts no case of the valid cell %r anywhere in the lattice (rejects everything)" % (ep, cell)),
                                        space="permeate_specification", index=-1, case={"ep": ep, "cell": cell}))
-    sp2 = core.Space("model_parameters", {"ep": MODEL_ENTRY_POINTS, "kind": ["nrtl_missing", "uniquac_missing", "constants_missing_first",
+    sp2 = core.Space("model_parameters", {"ep": MODEL_ENTRY_POINTS + ["partial_pressures_default", "activity_default", "curve_from_fluxes_default", "curve_from_permeances_default"], "kind": ["nrtl_missing", "uniquac_missing", "constants_missing_first",
                                                                               "constants_missing_second"],
                                           "mode": ["vac", "T", "p"], "x": xs + [0.0, 1.0], "T": ts},  # incl. pure feeds: no shortcut may bypass the checks
-                     lambda c: not (c["ep"] == "partial_pressures" and c["mode"] != "vac"))
+                     lambda c: not (c["ep"] in ("partial_pressures", "partial_pressures_default", "activity_default", "curve_from_permeances_default") and c["mode"] != "vac"))
     core.run_space(rep, sp2, judge_model)
     misc = [{"kind": "mixture_without_parameters"}]
     for t in ts:
@@ -215,6 +227,9 @@ def main(tier, seed):
             # the non-isothermal model needs the activation energy even when it STARTS at the curve's temperature (it drifts away)
             for n in (1, 2):
                 misc.append({"kind": "activation_energy", "n": n, "site": "nonideal_noniso", "T": 333.15, "x": x})
+            # a query a few millikelvin beside the single experiment (313.15 K) is "another temperature"
+            for dT in (1e-3, -2e-3, 1e-6):
+                misc.append({"kind": "activation_energy", "n": 1, "site": "get_permeance", "T": 313.15 + dT, "x": x})
     core.run_space(rep, core.ListSpace("misc_rejections", misc), judge_misc)
     return rep.finish()
 
